@@ -60,7 +60,7 @@ class Interp:
         self.reqs.append(r)
         return r
 
-    def map(self, L, conc, stars=0, group=None, bad=-1, fname="fn", badkind=0):
+    def map(self, L, conc, stars=0, group=None, bad=-1, fname="fn", badkind=0, iterfail=-1):
         """map/starmap/doublestarmap over a counting generator of L elements; element `bad` (if any) makes the call raise:
         badkind 0 = func rejects that element's (well-formed) arguments; badkind 1 = the element cannot even be unpacked
         (a non-iterable for starmap, a non-mapping for doublestarmap)."""
@@ -92,7 +92,7 @@ class Interp:
             fnb.__name__ = fname
             fnb._is_coroutine = __import__("asyncio").coroutines._is_coroutine
             fn = fnb
-        gen = self.w.counting_gen(r, items)
+        gen = self.w.counting_gen(r, items, iterfail)
         meth = (self.pool.map, self.pool.starmap, self.pool.doublestarmap)[stars]
         try:
             r["group"] = meth(fn, gen, num_concurrent=conc, group_name=group,
